@@ -112,3 +112,40 @@ package server
 //@ func (t *Teamserver) EndpointRemove(endpoint string) (r []*Endpoint)
 //@   requires nonnil: t != nil && forall(i, 0, len(t.Endpoints), t.Endpoints[i] != nil)
 //@   modifies t.Endpoints, elems(t.Endpoints)
+
+// ---------------------------------------------------------------------------
+// C09: pivot links. "listed(p, c)": some entry of p's link list is c.
+//@ spec listed(p, c) = exists(i, 0, len(p.Pivots.Links), p.Pivots.Links[i] == c)
+//@ spec noNilLinks(a) = forall(i, 0, len(a.Pivots.Links), a.Pivots.Links[i] != nil && a.Pivots.Links[i].Info != nil)
+
+//@ func (t *Teamserver) LinkAdd(ParentAgent *agent.Agent, LinkAgent *agent.Agent) (err error)
+//@   requires nonnil: t != nil && t.DB != nil && ParentAgent != nil && LinkAgent != nil
+//@   guard-call ids: "LinkAdd" arg(1) == int(ParentAgentID) && arg(2) == int(LinkAgentID)
+//@   ensures ok: err == nil
+
+// Removing the link parent -> child: the child is marked inactive, the database
+// row of exactly this pair is deleted, with UpdateLinks the first entry with the
+// child's id leaves the parent's list (others keep their order), and the child no
+// longer names this parent.
+//@ func (t *Teamserver) LinkRemove(ParentAgent *agent.Agent, LinkAgent *agent.Agent, UpdateLinks bool)
+//@   requires nonnil: t != nil && t.DB != nil && ParentAgent != nil && LinkAgent != nil && LinkAgent.Info != nil && noNilLinks(ParentAgent)
+//@   modifies LinkAgent.Active, LinkAgent.Reason, ParentAgent.Pivots.Links, elems(ParentAgent.Pivots.Links)
+//@   guard-call ids: "LinkRemove" arg(1) == int(ParentAgentID) && arg(2) == int(LinkAgentID)
+//@   ensures dead:   LinkAgent.Active == false
+//@   ensures keep:   !UpdateLinks ==> (sameslice(ParentAgent.Pivots.Links, old(ParentAgent.Pivots.Links)) && ParentAgent.Pivots.Links == old(ParentAgent.Pivots.Links))
+//@   ensures gone:   UpdateLinks ==> forall(j, 0, old(len(ParentAgent.Pivots.Links)), (old(ParentAgent.Pivots.Links)[j].NameID == LinkAgent.NameID && forall(k, 0, j, old(ParentAgent.Pivots.Links)[k].NameID != LinkAgent.NameID)) ==> ParentAgent.Pivots.Links == cat(old(ParentAgent.Pivots.Links)[:j], old(ParentAgent.Pivots.Links)[j+1:]))
+//@   ensures detached: UpdateLinks ==> LinkAgent.Pivots.Parent != ParentAgent
+//@   loop "for i := range ParentAgent.Pivots.Links"
+//@     invariant none: forall(k, 0, idx__, ParentAgent.Pivots.Links[k].NameID != LinkAgent.NameID)
+//@     invariant same: sameslice(ParentAgent.Pivots.Links, old(ParentAgent.Pivots.Links)) && ParentAgent.Pivots.Links == old(ParentAgent.Pivots.Links)
+
+// Removing an agent: completes for any number of links and leaves it without links.
+//@ func (t *Teamserver) UnlinkFromAll(Agent *agent.Agent)
+//@   requires nonnil: t != nil && t.DB != nil && Agent != nil && Agent.Info != nil && noNilLinks(Agent) && forall(i, 0, len(t.Agents.Agents), t.Agents.Agents[i] != nil && noNilLinks(t.Agents.Agents[i]))
+//@   modifies *
+//@   loop "for len(Agent.Pivots.Links) > 0"
+//@     invariant wf: noNilLinks(Agent) && t.DB != nil && Agent.Info != nil
+//@     decreases len(Agent.Pivots.Links)
+
+//@ func (t *Teamserver) AgentUpdate(agent *agent.Agent)
+//@   requires nonnil: t != nil && t.DB != nil && agent != nil && agent.Info != nil
